@@ -38,6 +38,14 @@ LAWS = [
     ("?OP_x iff some operation has it (fbreg)", LOCV + " ?(type == T_LOCLIST_ELEM) (?OP_fbreg !(elem ?OP_fbreg), !OP_fbreg ?(elem ?OP_fbreg))"),
     ("?OP_x iff some operation has it (piece)", LOCV + " ?(type == T_LOCLIST_ELEM) (?OP_piece !(elem ?OP_piece), !OP_piece ?(elem ?OP_piece))"),
     ("?OP_x on an operation iff label", LOCV + " ?(type == T_LOCLIST_ELEM) elem (?OP_bregx (label != DW_OP_bregx), !OP_bregx (label == DW_OP_bregx))"),
+    ] + [("abbrev ?AT_%s iff one of its attributes has that name" % a,
+       "abbrev entry (?AT_%s !(attribute ?(label == DW_AT_%s)), !AT_%s ?(attribute ?(label == DW_AT_%s)))" % (a, a, a, a))
+      for a in ("name", "type", "sibling", "location", "decl_line", "specification")] + [
+    ("abbrev ?TAG_x iff its label", "abbrev entry (?TAG_variable (label != DW_TAG_variable), !TAG_variable (label == DW_TAG_variable), "
+     "?TAG_subprogram (label != DW_TAG_subprogram), !TAG_subprogram (label == DW_TAG_subprogram))"),
+    ("abbrev attribute ?AT_x / ?FORM_x iff its label / form",
+     "abbrev entry attribute (?AT_name (label != DW_AT_name), !AT_name (label == DW_AT_name), ?FORM_data1 (form != DW_FORM_data1), "
+     "!FORM_data1 (form == DW_FORM_data1), ?FORM_ref4 (form != DW_FORM_ref4), !FORM_ref4 (form == DW_FORM_ref4))"),
     ("abbrev label = DIE label", "raw entry (|D| D abbrev (label != D label))"),
     ("abbrev attributes = raw attributes", "raw entry (|D| ?([D attribute [label, form]] != [D abbrev attribute [label, form]]))"),
     ("abbrev ?haschildren = DIE ?haschildren", "raw entry (|D| (D abbrev ?haschildren D !haschildren, D abbrev !haschildren D ?haschildren))"),
